@@ -119,12 +119,12 @@ def r_extend(s):
 
 def r_serret_sig(sig):
     """fn serialize<'se, W: Write>(&self, serializer: &'se mut Serializer<W>) -> cbor_event::Result<&'se mut Serializer<W>>
-       -> fn serialize(&self, serializer: &mut Serializer) -> Result<(), CborError>"""
+       -> fn serialize(&self, serializer: &mut Serializer) -> Result<(), CborError>      (any lifetime name; `W: Write [+ Sized]`)"""
     s2 = sig
-    s2 = re.sub(r"<\s*'se\s*,\s*W\s*:\s*(?:std::io::)?Write\s*>", "", s2)
-    s2 = re.sub(r"&\s*'se\s+mut\s+Serializer\s*<\s*W\s*>", "&mut Serializer", s2)
+    s2 = re.sub(r"<\s*'\w+\s*,\s*W\s*:\s*(?:std::io::)?Write(?:\s*\+\s*Sized)?\s*>", "", s2)
+    s2 = re.sub(r"&\s*'\w+\s+mut\s+Serializer\s*<\s*W\s*>", "&mut Serializer", s2)
     s2 = re.sub(r"->\s*cbor_event::Result\s*<\s*&mut Serializer\s*>", "-> Result<(), CborError>", s2)
-    if s2 == sig or "'se" in s2 or "<W>" in s2:
+    if s2 == sig or "<W>" in s2 or re.search(r"&\s*'\w+\s+mut\s+Serializer", s2):
         raise Unsupported("R-serret: signature shape not recognised: " + norm_ws(sig))
     return s2, [("R-serret", norm_ws(sig)[:160], norm_ws(s2)[:160])]
 
@@ -606,6 +606,8 @@ def emit_fn(f, udir, unit_props, recs, log_global):
     rec.sha = hashlib.sha256((sig + body).encode()).hexdigest()[:16]
     rec.properties = f.get("properties", unit_props)
     rec.contract = dict(requires=f.get("requires", []), ensures=f.get("ensures", []))
+    rec.fn_name = f["name"] + ("__" + f["variant"] if f.get("variant") else "")
+    rec.impl_hdr = f.get("emit_impl", f.get("impl") or "")
     log = []
     where = "%s (%s:%d)" % (rec.id, f["source"], loc["line"])
     sig, l = r_vis(sig)
@@ -796,6 +798,8 @@ def assemble(unit_name, canary=False, demote=()):
             if emit_impl:
                 add(emit_impl + " {\n")
             cur_impl = emit_impl
+        if f.get("impl_pre") and "from_unit" not in f:
+            add(f["impl_pre"].rstrip() + "\n")
         add("// ---- %s  [%s]  %s:%d-%d sha=%s\n" % (rec.id, rec.mode, rec.source, rec.line, rec.end_line, rec.sha))
         rec.emit_start = pos[0]
         add(text)
